@@ -37,13 +37,35 @@ def population(hv, tier, sd, pops, per_pop):
     return out
 
 
+def override_cases():
+    """VERIF_CASES=<ndjson file of {prog,input,w}> (also set by --replay) replaces
+    the generated population."""
+    import json
+    import os
+    path = os.environ.get("VERIF_CASES")
+    if not path:
+        return None
+    out = []
+    for i, l in enumerate(open(path)):
+        if l.strip():
+            c = json.loads(l)
+            c = c.get("witness", c)
+            out.append({"id": "X%d" % i, "pop": "X", "prog": c["prog"], "input": c.get("input", []),
+                        "w": c.get("w", 8)})
+    return out
+
+
 def run_equivalence(prop, tier, backend_runs, pops, per_pop, profiles=("release",), adjudicate_max=3000):
     """Common driver for C01-C04: run cases whose canonical run is short on the
     given configurations, validate every distinct recording with TLC."""
     rep = Report(prop, "model_checking", tier)
     sd = seed()
+    import os
+    if os.environ.get("VERIF_POPS"):          # development aid: "N=30000,S=0"
+        per_pop = {k: int(v) for k, v in (x.split("=") for x in os.environ["VERIF_POPS"].split(","))}
+        pops = list(per_pop)
     bins = build_harness(tuple(set(profiles) | {"release"}))
-    cases = population(bins["release"], tier, sd, pops, per_pop)
+    cases = override_cases() or population(bins["release"], tier, sd, pops, per_pop)
     rep.count("cases_generated", len(cases))
     traces, index = [], {}
     prescreened = 0
@@ -78,22 +100,69 @@ def run_equivalence(prop, tier, backend_runs, pops, per_pop, profiles=("release"
     verdicts = bf.validate(traces, rep, prop)
     tmap = {t["id"]: t for t in traces}
     inconclusive = 0
+    rejected = []
     for tid, v in verdicts.items():
         prof, owners, (case, runs) = index[tid]
         t = tmap[tid]
         if v["verdict"] == "rejected":
-            for i in owners[:1]:
-                rep.violation(bf.witness(case, runs[i], t, v, prof),
-                              "%s w=%d %s: %s  prog=%s input=%s" % (
-                                  bf.cfg_name(runs[i]), case["w"], prof, v["why"], case["prog"], case["input"]))
+            rejected.append((case, runs[owners[0]], t, v, prof))
         elif v["verdict"] == "inconclusive":
             inconclusive += 1
         elif len(rep.coverage["samples"]) < 5 and v["steps"] > 20:
             rep.sample({"prog": case["prog"], "w": case["w"], "input": case["input"],
                         "configs": [bf.cfg_name(runs[i]) for i in owners], "log": t["log"][:12],
                         "tlc": v["why"], "canonical_steps": v["steps"]})
+    report_rejected(rep, bins, rejected, prop)
     rep.count("inconclusive", inconclusive)
     return rep.finish()
+
+
+def report_rejected(rep, bins, rejected, prop, max_shrink=12):
+    """Rejected recordings become violations.  For readability the first few are
+    delta-debugged natively; the shrunk case is reported only if TLC rejects its
+    recording as well."""
+    from . import pool
+    todo = [r for r in rejected if r[2]["claim"] == "complete"][:max_shrink]
+    shrunk = {}
+    if todo:
+        reqs = [{"op": "shrink", "id": "s%d" % i, "prog": c["prog"], "w": c["w"], "input": c["input"], "run": run}
+                for i, (c, run, t, v, prof) in enumerate(todo)]
+        byprof = {}
+        for i, r in enumerate(todo):
+            byprof.setdefault(r[4], []).append(i)
+        cases2, runs2 = [], {}
+        for prof, idxs in byprof.items():
+            answers = pool.simple_requests(bins[prof], [reqs[i] for i in idxs], timeout=240.0)
+            for i, a in zip(idxs, answers):
+                if a and a.get("shrunk") == 1 and len(a["prog"]) < len(todo[i][0]["prog"]):
+                    c2 = {"id": "shr%d" % i, "pop": "shrunk", "prog": a["prog"], "w": todo[i][0]["w"],
+                          "input": a["input"]}
+                    cases2.append((prof, c2))
+                    runs2[c2["id"]] = todo[i][1]
+        traces2, idx2 = [], {}
+        for prof in byprof:
+            cs = [c for (p, c) in cases2 if p == prof]
+            if not cs:
+                continue
+            ex = bf.execute(bins[prof], cs, lambda c: [runs2[c["id"]]])
+            tr, owners = bf.group_traces(ex, tag=prof[0] + ":")
+            for t in tr:
+                cid = t["id"].split(":", 1)[1].rsplit("#", 1)[0]
+                idx2[t["id"]] = (prof, [c for c in cs if c["id"] == cid][0])
+            traces2 += tr
+        if traces2:
+            v2 = bf.validate(traces2, rep, prop + "-shrunk")
+            for t in traces2:
+                if v2[t["id"]]["verdict"] == "rejected":
+                    prof, c2 = idx2[t["id"]]
+                    i = int(c2["id"][3:])
+                    shrunk[i] = (c2, runs2[c2["id"]], t, v2[t["id"]], prof)
+    for i, (case, run, t, v, prof) in enumerate(rejected):
+        if i < len(todo) and todo[i] is rejected[i] and i in shrunk:
+            case, run, t, v, prof = shrunk[i]
+        rep.violation(bf.witness(case, run, t, v, prof),
+                      "%s w=%d %s: %s  prog=%s input=%s" % (
+                          bf.cfg_name(run), case["w"], prof, v["why"], case["prog"], case["input"]))
 
 
 def c04(tier):
